@@ -42,11 +42,13 @@ import (
 	"verif/ref/pki"
 	"verif/ref/reflog"
 
+	ct "github.com/google/certificate-transparency-go"
 	"github.com/google/certificate-transparency-go/client"
 	"github.com/google/certificate-transparency-go/jsonclient"
 	"github.com/google/certificate-transparency-go/scanner"
 	"github.com/google/certificate-transparency-go/trillian/migrillian/configpb"
 	"github.com/google/certificate-transparency-go/trillian/migrillian/core"
+	"github.com/google/certificate-transparency-go/x509"
 	"github.com/google/trillian"
 	"github.com/google/trillian/monitoring"
 	"github.com/google/trillian/util/election2"
@@ -83,16 +85,65 @@ func mkEntry(i int, cert []byte) entry {
 	return entry{leafInput: li, extraData: xd, certData: cert}
 }
 
+// mkPreEntry is a precertificate entry: the leaf carries issuer key hash and TBSCertificate, the extra data the precertificate and its chain.
+func mkPreEntry(i int, pre, tbs []byte, chain [][]byte, ikh [32]byte) entry {
+	li, err := ct6962.AppendMerkleTreeLeaf(nil, ct6962.MerkleTreeLeaf{Version: 0, LeafType: 0,
+		Entry: ct6962.TimestampedEntry{Timestamp: uint64(5000 + i), SignedEntry: ct6962.SignedEntry{EntryType: ct6962.PrecertEntry, IssuerKeyHash: ikh, TBS: tbs}, Extensions: nil}})
+	if err != nil {
+		panic(err)
+	}
+	xd, err := ct6962.AppendPrecertChainEntry(nil, ct6962.PrecertChainEntry{PreCertificate: pre, Chain: chain})
+	if err != nil {
+		panic(err)
+	}
+	return entry{leafInput: li, extraData: xd, certData: pre}
+}
+
+// The source log holds every kind of entry a real log does: certificates and precertificates that parse cleanly,
+// that parse with a remark the lenient parser does not treat as fatal (an RSA key published without the NULL
+// parameters), and that do not parse at all. All of them are to be copied verbatim.
 func init() {
 	root := pki.NewRoot("C20 Root", pki.LoadKey("p256-0"))
+	ikh := root.T.Key.KeyHash()
 	for i := 0; i < 8; i++ {
-		var cert []byte
-		if i%3 == 1 {
-			cert = []byte(fmt.Sprintf("not a certificate at all #%d", i)) // unparsable: must be copied verbatim
-		} else {
-			cert = pki.NewLeaf(fmt.Sprintf("c20-%d", i), pki.LoadKey("p256-2"), root, pki.LeafOpts{}).DER
+		cn := fmt.Sprintf("c20-%d", i)
+		pre := func(k string) *pki.Cert {
+			return pki.NewLeaf(cn, pki.LoadKey(k), root, pki.LeafOpts{Exts: []pki.Ext{pki.ExtSAN(cn + ".example"), pki.ExtPoison()}})
 		}
-		entries = append(entries, mkEntry(i, cert))
+		switch {
+		case i%3 == 1:
+			entries = append(entries, mkEntry(i, []byte(fmt.Sprintf("not a certificate at all #%d", i)))) // unparsable: must be copied verbatim
+		case i == 2:
+			p := pre("p256-2")
+			entries = append(entries, mkPreEntry(i, p.DER, p.TBS, [][]byte{root.DER}, ikh))
+		case i == 3:
+			entries = append(entries, mkEntry(i, pki.NewLeaf(cn, pki.LoadKey("rsa2048-1~nonull"), root, pki.LeafOpts{}).DER))
+		case i == 5:
+			p := pre("rsa2048-1~nonull")
+			entries = append(entries, mkPreEntry(i, p.DER, p.TBS, [][]byte{root.DER}, ikh))
+		case i == 6:
+			p := pre("p256-2")
+			entries = append(entries, mkPreEntry(i, p.DER, []byte("not a TBSCertificate"), [][]byte{root.DER}, ikh))
+		default:
+			entries = append(entries, mkEntry(i, pki.NewLeaf(cn, pki.LoadKey("p256-2"), root, pki.LeafOpts{}).DER))
+		}
+	}
+	// the harness relies on these parser verdicts: say so loudly if the fixtures stop producing them
+	for i, want := range map[int]string{0: "clean", 2: "clean", 3: "remark", 5: "remark", 1: "fatal", 6: "fatal"} {
+		rle, err := ct.RawLogEntryFromLeaf(int64(i), &ct.LeafEntry{LeafInput: entries[i].leafInput, ExtraData: entries[i].extraData})
+		if err != nil {
+			panic(fmt.Sprintf("harness: source entry %d has no raw form: %v", i, err))
+		}
+		_, err = rle.ToLogEntry()
+		got := "clean"
+		if x509.IsFatal(err) {
+			got = "fatal"
+		} else if err != nil {
+			got = "remark"
+		}
+		if got != want {
+			panic(fmt.Sprintf("harness: source entry %d parses as %q (%v), fixture meant %q", i, got, err, want))
+		}
 	}
 	forked = append([]entry{}, entries...)
 	forked[1] = mkEntry(1, []byte("a different second entry"))
